@@ -2,7 +2,7 @@ SPECIFICATION Spec
 CONSTANTS
   MaxMem = 3
   PruneN = 2
-  MaxChunks = 6
+  MaxChunks = 8
   MaxToks = 1
   Roles = {"client", "relaytmux"}
   WinVals = {TRUE, FALSE}
@@ -10,7 +10,7 @@ CONSTANTS
   Vers = {"new"}
   Ports <- PortsNone
   Shapes = {"s00", "s10", "s20"}
-  TsSet = {1, 2, 3}
+  TsSet = {1, 2}
   PartKinds = {}
   Markers = {}
   Places = {}
